@@ -18,15 +18,23 @@ Print Assumptions C31_no_leak_out.
 (* No capture of the caller's locals.  (1) Below a boundary frame b, with any frames J opened on
    top of it, hygienic resolution never returns a frame beyond b.  (2) A body without unhygienic
    splices returns the caller's environment unchanged - values included - whatever names it
-   declares, reads or assigns.  (3) `x := e` changes the current frame only, even inside an
-   unhygienic splice. *)
+   declares, reads or assigns, as statements or inside expressions (operands, println arguments,
+   conditions).  (3) The same for a single expression: evaluating an expression without unhygienic
+   splices below a boundary - binders `(x := e)` and assignments `(x = e)` in any nested position
+   included - changes only the frames down to the boundary frame; everything beyond it (r) is
+   returned as it was.  (4) A binder `(x := e)`, hygienic or not, at any depth of an expression: after
+   its initialiser has run it adds/overwrites x in the CURRENT frame and touches nothing else. *)
 Theorem C31_no_capture_in :
   (forall J b r x d v, ftyp b = FBoundary ->
      resolve (J ++ b :: r) x false = Some (d, v) -> (d <= length J)%nat) /\
   (forall m r b r' o, stmt_hyg b = true ->
      run m r false (SBoundary b) = Some (r', o) -> r' = r) /\
-  (forall m f r u x e e' o, run m (f :: r) u (SLet x e) = Some (e', o) -> tl e' = r).
-Proof. exact (conj resolve_hyg_depth (conj hygienic_boundary_pure let_local)). Qed.
+  (forall e J b r e' v, expr_hyg e = true -> ftyp b = FBoundary ->
+     eval (J ++ b :: r) false e = Some (e', v) ->
+     exists J' b', e' = J' ++ b' :: r /\ length J' = length J /\ ftyp b' = FBoundary) /\
+  (forall r u x e e' v, eval r u (EBind x e) = Some (e', v) ->
+     exists f1 r1, eval r u e = Some (f1 :: r1, v) /\ e' = add f1 x v :: r1).
+Proof. exact (conj resolve_hyg_depth (conj hygienic_boundary_pure (conj hygienic_expr_frame bind_local))). Qed.
 Print Assumptions C31_no_capture_in.
 
 (* The caller's locals are reachable exactly inside unhygienic splices: a name that no frame of
@@ -43,7 +51,9 @@ Print Assumptions C31_unhyg_only.
    injective renaming sg into names >= K, every caller environment and body using names < K only,
    in both modes (checker verdict: Static; execution: Dynamic) and under either flag, the plain
    block around the renamed body gives the same verdict, the same output and the same final
-   caller environment as the boundary. Nested boundaries and unhygienic splices are allowed in b. *)
+   caller environment as the boundary. Nested boundaries and unhygienic splices are allowed in b,
+   and so are expressions that bind: `(x := e) + x`, `println((x := e) + x)`, `if (x := e) > 0`,
+   `y = (x := e)`; an expansion may consist of ONE such expression (b = SPrint e or SExpr e). *)
 Theorem C31_expansion_equiv : forall K sg,
   (forall x y, sg x = sg y -> x = y) -> (forall x, (K <= sg x)%N) ->
   forall m r u b, env_below K r = true -> stmt_below K b = true ->
@@ -106,6 +116,23 @@ Example C31_expand_nonvacuous :
   run Dynamic [mkFrame FDefault [(0%N, 1)]] false
     (SBoundary (SSeq (SLet 0%N (EAdd (EUnhyg (EVar 0%N)) (ELit 1))) (SPrint (EUnhyg (EVar 0%N)))))
   = Some ([mkFrame FDefault [(0%N, 1)]], [2]).
+Proof. vm_compute. auto. Qed.
+
+(* an expansion that is ONE expression binding a local in an operand, called where the caller has a
+   local of the same name in the same frame: caller x := 7; a := 3;
+   body println((x := unhygienic(a) + 1) + x); after: println x  ->  8 7, and the hand expansion
+   renames both occurrences of the macro's x *)
+Example C31_expr_binder_nonvacuous :
+  let body := SPrint (EAdd (EBind 0%N (EAdd (EUnhyg (EVar 1%N)) (ELit 1))) (EVar 0%N)) in
+  run Dynamic [mkFrame FDefault []] false
+    (SSeq (SLet 0%N (ELit 7)) (SSeq (SLet 1%N (ELit 3)) (SSeq (SBoundary body) (SPrint (EVar 0%N)))))
+  = Some ([mkFrame FDefault [(0%N, 7); (1%N, 3)]], [8; 7]) /\
+  expand_by_hand (fun x => (x + 100)%N) false body
+  = SBlock (SPrint (EAdd (EBind 100%N (EAdd (EUnhyg (EVar 1%N)) (ELit 1))) (EVar 100%N))) /\
+  (* a binder in an `if` condition is visible in the branches and gone afterwards *)
+  run Dynamic [mkFrame FDefault [(0%N, 7)]] false
+    (SSeq (SBoundary (SIf (EBind 0%N (ELit 2)) (SPrint (EAdd (EVar 0%N) (ESet 0%N (ELit 5)))) SSkip)) (SPrint (EVar 0%N)))
+  = Some ([mkFrame FDefault [(0%N, 7)]], [7; 7]).
 Proof. vm_compute. auto. Qed.
 
 (* expand_all leaves no boundary and renames nested expansions apart *)
